@@ -3,18 +3,19 @@
   Property theorems (helper lemmas live in Proofs/Ast*.lean).
 
   Specification  `Tree` / `step` / `run`          (Model/Ast.lean)
-  Implementation `NodeM` / `stepM` / `runM`       (Model/AstNode.lean, transliterated from ast/*.go)
+  Implementation `NodeM` / `stepM` / `runM`       (Model/AstNode.lean, transliterated from ast/*.go
+                                                   WITH the four C15 repairs, patches/C15-*.diff)
   Link           `abs`, `repOk`, `Refines`, `safeStep`, `safeRun`   (Model/AstRefine.lean)
 
-  The statement at full strength is `Refinement` below.  The faithful implementation model makes it
-  FALSE (`refinement_fails`, with five separate witnesses, each replayed on the real ast.Node by
-  corpus/C15/witness.case).  What is proved for every document, every hidden representation and every finite
-  operation sequence is the same statement restricted by `safeStep`, which excludes exactly
-    * `Len()` on a node that is still raw or lazy,
-    * key lookups (Get / Set / Unset / a key on the path) in an object that holds - or is about to
-      build - a hash index (more than 16 pairs at load time),
-    * key lookups with the empty key while soft-deleted pairs are present,
-    * `Move` with an index beyond the logical length while soft-deleted slots are present.
+  The statement at full strength is `Refinement` below.  The faithful implementation model still makes
+  it FALSE at exactly one point: `Len()` on a node that is raw or lazily loaded counts only what has
+  been parsed (documented WARN at ast/node.go, `len_partial_observable`, replayed on the real node by
+  corpus/C15/witness.case).  `safeStep` excludes that and nothing else: for every document, every hidden
+  representation (raw, lazy in any state of progress, loaded, loaded with soft-deleted slots, with or
+  without hash index, duplicated and empty keys included) and every finite sequence of operations that
+  does not call `Len()` on a not-yet-loaded node, every observation and the final MarshalJSON are those
+  of the plain tree (`refinement_seq_partial`; without any side condition when `Len` is not used:
+  `refinement_seq_except_len`).
 -/
 import SonicSpec.Proofs.AstRefine
 import SonicSpec.Proofs.AstChunk
@@ -39,7 +40,7 @@ def LazyOrderUnobservable : Prop :=
 /-! ## what holds -/
 
 /-- one operation, addressed to the root or through a path: same observation, the new node stands for
-    the new tree, the invariant is kept - whenever the step is not one of the excluded ones -/
+    the new tree, the invariant is kept - unless the step is a `Len()` on a not-yet-loaded node -/
 theorem refinement_partial (n : NodeM) (o : POp) (hr : n.repOk = true) (hs : safeStep n o = true) :
     Refines (stepM n o) (step n.abs o) :=
   step_refines n o hr hs
@@ -80,10 +81,46 @@ theorem at_index (α : Type) (c : Nat) (hc : 0 < c) (s : Linked α) (h : Linked.
     s.slot c i = (Linked.toList s)[i]? :=
   Linked.at_eq_getElem? c hc s h i
 
-/-! ## what does not hold: the faithful model contradicts the full statement
+/-- no side condition at all for an operation other than `Len` -/
+theorem refinement_except_len (n : NodeM) (o : POp) (hr : n.repOk = true) (ho : o.op.isLen = false) :
+    Refines (stepM n o) (step n.abs o) :=
+  step_refines n o hr (safeAt_of_not_len o.op ho o.path n)
 
-Each witness is a concrete document and operation sequence; `corpus/C15/witness.case` replays it on
-the real `ast.Node` (the real node answers exactly as `NodeM` does here). -/
+/-- ... and for every finite sequence of such operations -/
+theorem refinement_seq_except_len (n : NodeM) (ops : List POp) (hr : n.repOk = true)
+    (ho : ∀ o ∈ ops, o.op.isLen = false) :
+    (runM n ops).1 = (run n.abs ops).1 ∧ (runM n ops).2.abs = (run n.abs ops).2 ∧
+    (runM n ops).2.repOk = true :=
+  run_refines ops n hr (safeRun_of_no_len ops n ho)
+
+/-- raw / lazy in any state / loaded / soft-deleted / indexed representations of one tree are
+    indistinguishable by any sequence that does not use `Len` -/
+theorem lazy_order_unobservable_except_len (n₁ n₂ : NodeM) (ops : List POp)
+    (h₁ : n₁.repOk = true) (h₂ : n₂.repOk = true) (ha : n₁.abs = n₂.abs)
+    (ho : ∀ o ∈ ops, o.op.isLen = false) :
+    (runM n₁ ops).1 = (runM n₂ ops).1 :=
+  lazy_order_unobservable_partial n₁ n₂ ops h₁ h₂ ha (safeRun_of_no_len ops n₁ ho) (safeRun_of_no_len ops n₂ ho)
+
+/-- `Set(i, v)` on the chunked storage (`i` a slot in use, or the first free one = `Push`): the
+    shape invariant is kept and the flat list is overwritten at `i` / extended by `v`; new chunks
+    are allocated as `growTailLength` does (ast/buffer.go:99-138, 257-304) -/
+theorem chunk_set (α : Type) (c : Nat) (hc : 0 < c) (zero : α) (s : Linked α) (h : Linked.WF c s)
+    (i : Nat) (hi : i ≤ s.size) (v : α) :
+    Linked.WF c (Linked.set c zero s i v) ∧
+    Linked.toList (Linked.set c zero s i v) =
+      (if i < s.size then (Linked.toList s).set i v else Linked.toList s ++ [v]) :=
+  Linked.set_toList c hc zero s h i hi v
+
+theorem chunk_push (α : Type) (c : Nat) (hc : 0 < c) (zero : α) (s : Linked α) (h : Linked.WF c s) (v : α) :
+    Linked.WF c (Linked.push c zero s v) ∧ Linked.toList (Linked.push c zero s v) = Linked.toList s ++ [v] :=
+  Linked.push_toList c hc zero s h v
+
+/-- `Pop()` (ast/buffer.go:87, 241) drops the last slot in use -/
+theorem chunk_pop (α : Type) (c : Nat) (hc : 0 < c) (zero : α) (s : Linked α) (h : Linked.WF c s) :
+    Linked.WF c (Linked.pop c zero s) ∧ Linked.toList (Linked.pop c zero s) = (Linked.toList s).dropLast :=
+  Linked.pop_toList c hc zero s h
+
+/-! ## what does not hold: `Len()` before the node is loaded -/
 
 def num (i : Nat) : Tree := .num [UInt8.ofNat (48 + i % 10)]
 def key (i : Nat) : Key := [107, UInt8.ofNat (48 + i / 10), UInt8.ofNat (48 + i % 10)]
@@ -97,8 +134,9 @@ def obj18dup : Tree := .obj ((List.range 17).map (fun i => (key i, num i)) ++ [(
 /-- `{"a":1,"":2}` -/
 def objEmptyKey : Tree := .obj [([97], num 1), ([], num 2)]
 
-/-- W1 (`Len` counts only what has been parsed): on a fresh raw `[1,2,3,4]` the model answers 0,
-    and 1 after `Index(0)`; the tree has 4 elements -/
+/-- `Len` counts only what has been parsed: on a fresh raw `[1,2,3,4]` the model answers 0, and 1
+    after `Index(0)`; the tree has 4 elements.  (corpus/C15/witness.case, first line; finding
+    C15-len-partial) -/
 theorem len_partial_observable :
     (stepM (newRaw arr4 false) (here .len)).1 = .n 0 ∧
     ((runM (newRaw arr4 false) [here (.idx 0), here .len]).1.map (·.1)).getLast? = some (.n 1) ∧
@@ -115,43 +153,47 @@ theorem seq_refinement_fails : ¬ SeqRefinement := by
   have := h (newRaw arr4 false) rfl [here .len]
   revert this; decide
 
-/-- W2 (duplicate key + hash index): while the object is lazy `Get("k00")` finds the FIRST pair
-    (value 0); once it has been loaded (here by an iteration) the index leads to the LAST (value 9) -/
-theorem dupkey_index_picks_last :
-    (runM (newRaw obj18dup false) [here (.get (key 0))]).1.map (·.1) = [.val [48]] ∧
-    ((runM (newRaw obj18dup false) [here .iter, here (.get (key 0))]).1.map (·.1)).getLast? = some (.val [57]) ∧
-    ((run obj18dup [here .iter, here (.get (key 0))]).1.map (·.1)).getLast? = some (.val [48]) := by decide
-
-/-- hence laziness is observable: a raw node and the same node after an iteration stand for the same
-    tree, satisfy the invariant, and answer `Get("k00")` differently -/
+/-- laziness is observable through `Len`: a raw node and the same node after an iteration stand for
+    the same tree, satisfy the invariant, and answer `Len()` differently -/
 theorem lazy_order_observable : ¬ LazyOrderUnobservable := by
   intro h
-  have hsafe : safeStep (newRaw obj18dup false) (here .iter) = true := by decide
-  obtain ⟨_, r2, r3⟩ := refinement_partial (newRaw obj18dup false) (here .iter) rfl hsafe
-  have habs : (newRaw obj18dup false).abs = (stepM (newRaw obj18dup false) (here .iter)).2.abs := by
+  obtain ⟨_, r2, r3⟩ := refinement_except_len (newRaw arr4 false) (here .iter) rfl rfl
+  have habs : (newRaw arr4 false).abs = (stepM (newRaw arr4 false) (here .iter)).2.abs := by
     rw [r2]; rfl
-  have := h (newRaw obj18dup false) (stepM (newRaw obj18dup false) (here .iter)).2 rfl r3 habs [here (.get (key 0))]
+  have := h (newRaw arr4 false) (stepM (newRaw arr4 false) (here .iter)).2 rfl r3 habs [here .len]
   revert this; decide
 
-/-- W3 (DESIGN §8 #18): 17 members, `Unset(last); Pop(); Get(last)`: the soft delete leaves the index
-    entry, `Pop` shrinks the store below it, `linkedPairs.Get` dereferences `At(i) = nil` -/
-theorem unset_pop_get_panics :
+/-! ## regression documentation: the four defects repaired by patches/C15-*.diff
+
+Before the repairs the transliterated model (and the real node) deviated on the four sequences below
+(the pre-fix answers are quoted); the model of the repaired code agrees with the plain tree on each.
+The same sequences are replayed on the real `ast.Node` by corpus/C15/witness.case. -/
+
+/-- C15-index-first-pair-wins: `Get("k00")` on the 18-pair object with `k00` duplicated finds the
+    first pair (value 0) while lazy AND after loading (pre-fix: 9, the last pair, once loaded) -/
+theorem dupkey_first_pair_always :
+    (runM (newRaw obj18dup false) [here (.get (key 0))]).1.map (·.1) = [.val [48]] ∧
+    ((runM (newRaw obj18dup false) [here .iter, here (.get (key 0))]).1.map (·.1)).getLast? = some (.val [48]) ∧
+    ((runM (newRaw obj18dup false) [here .iter, here .pop, here (.get (key 0))]).1.map (·.1)).getLast?
+      = some (.val [48]) := by decide
+
+/-- C15-stale-index-nil-deref: 17 members, `Unset(last); Pop(); Get(last)` answers "absent"
+    (pre-fix: nil-pointer panic in `linkedPairs.Get`) -/
+theorem unset_pop_get_absent :
     (runM (newRaw obj17 false) [here (.unset (key 16)), here .pop, here (.get (key 16))]).1.map (·.1)
-      = [.b true, .ok, .panic] ∧
-    (run obj17 [here (.unset (key 16)), here .pop, here (.get (key 16))]).1.map (·.1)
       = [.b true, .ok, .nx] := by decide
 
-/-- W4 (empty key after a soft delete): the linear search of `linkedPairs.Get` matches the emptied
-    `Pair{}` (its `Key` is `""`), so the real `""` member is not found any more -/
-theorem empty_key_lost_after_unset :
-    (runM (newRaw objEmptyKey false) [here (.unseti 0), here (.get [])]).1.map (·.1) = [.b true, .nx] ∧
-    (run objEmptyKey [here (.unseti 0), here (.get [])]).1.map (·.1) = [.b true, .val [50]] := by decide
+/-- C15-empty-key-after-soft-delete: the member `""` is still found after another member was unset
+    (pre-fix: the emptied `Pair{}` answered for the empty key) -/
+theorem empty_key_kept_after_unset :
+    (runM (newRaw objEmptyKey false) [here (.unseti 0), here (.get [])]).1.map (·.1) = [.b true, .val [50]] := by
+  decide
 
-/-- W5 (`Move` with an index beyond the logical length while a slot is soft-deleted): the stale
-    logical index is used as a physical one; `[2,3,4]` becomes `[3,4,2]` instead of staying -/
-theorem move_out_of_range_moves :
-    (runM (newRaw arr4 false) [here (.unseti 0), here (.move 3 0)]).2.canon = (Tree.arr [num 3, num 4, num 2]).canon ∧
-    (run arr4 [here (.unseti 0), here (.move 3 0)]).2.canon = (Tree.arr [num 2, num 3, num 4]).canon := by decide
+/-- C15-move-out-of-range-noop: `Move(3, 0)` on `[2,3,4]` with one soft-deleted slot leaves it alone
+    (pre-fix: `[3,4,2]`) -/
+theorem move_out_of_range_noop :
+    (runM (newRaw arr4 false) [here (.unseti 0), here (.move 3 0)]).2.canon = (Tree.arr [num 2, num 3, num 4]).canon := by
+  decide
 
 /-! ## non-vacuity -/
 
@@ -164,8 +206,9 @@ def ops1 : List POp :=
    ⟨[.key [98]], .sort false⟩, ⟨[.key [98]], .set [100] (.arr [])⟩, ⟨[.idx 1, .key [100]], .add .null⟩,
    ⟨[], .unset [97]⟩, ⟨[], .len⟩, ⟨[], .pop⟩, ⟨[], .mar⟩]
 
-/-- the hypotheses of the partial theorems are satisfiable on a sequence that does something: every
-    step of `ops1` is safe from a raw node and from a concurrently-readable one -/
+/-- the hypotheses of the partial theorems are satisfiable on a sequence that does something (and that
+    even contains a `Len`, taken when the root has been loaded): every step of `ops1` is safe from a
+    raw node and from a concurrently-readable one -/
 example : (newRaw doc1 false).repOk = true ∧ safeRun (newRaw doc1 false) ops1 = true ∧
     safeRun (newRaw doc1 true) ops1 = true := by decide
 
@@ -178,5 +221,10 @@ example : (run doc1 ops1).1.map (·.1) =
 example :
     let n₂ := (runM (newRaw doc1 false) [⟨[.key [98]], .load⟩, ⟨[], .iter⟩]).2
     n₂.repOk = true ∧ safeRun n₂ ops1 = true ∧ (newRaw doc1 false).isRaw = true ∧ n₂.isRaw = false := by decide
+
+/-- an indexed object with duplicated, deleted and empty keys is inside the theorems now: the
+    18-pair object after an iteration, a soft delete and a pop still satisfies the invariant -/
+example : (runM (newRaw obj18dup false) [here .iter, here (.unseti 3), here .pop, here (.set [] (num 1))]).2.repOk = true := by
+  decide
 
 end SonicSpec.Props.C15
